@@ -107,40 +107,57 @@ Section Skeleton.
   Lemma app_single_nonnil {A} (l : list A) a : l ++ [a] <> [].
   Proof. destruct l; discriminate. Qed.
 
-  (* with a Recorder: a panic escapes iff gogen.NewPackage raised (p is nil when the deferred
-     rec.Complete dereferences it) or rec.Complete itself raises *)
-  Lemma new_package_recorder_escape_iff (gogen_new body tail rec_complete : comp) (s0 : st) :
-    (exists x, new_package true true true gogen_new body tail rec_complete s0 = Escaped x) <->
-    ((exists x s1, gogen_new s0 = (Raised x, s1)) \/
-     (exists p err s, new_package true false true gogen_new body tail (fun s => (Done, s)) s0 = Returned p err s /\
-                      p = true /\ exists x s', rec_complete s = (Raised x, s'))).
+  (* with a Recorder: a panic escapes iff p was set (gogen.NewPackage returned) and rec.Complete itself
+     raises on the final state; what escapes is rec.Complete's own panic *)
+  Lemma new_package_recorder_escape_iff (gogen_new body tail rec_complete : comp) (s0 : st) x :
+    new_package true true true gogen_new body tail rec_complete s0 = Escaped x <->
+    (exists err s y s', new_package true false true gogen_new body tail (fun s => (Done, s)) s0 = Returned true err s /\
+                        rec_complete s = (Raised y, s') /\ x = Some y).
   Proof.
     unfold C07.new_package, after_panic, finish. cbn [negb].
-    destruct (gogen_new s0) as [[|x] s1].
-    2:{ split; [intros _; left; eauto|intros _; eauto]. }
-    destruct (body s1) as [[|x] s2].
+    destruct (gogen_new s0) as [[|z] s1].
+    2:{ split; [discriminate|]. intros (err & s & y & s' & H & _). discriminate. }
+    destruct (body s1) as [[|z] s2].
     2:{ cbn. split.
-        - intros [y H]. right. do 3 eexists. split; [reflexivity|]. split; auto.
-          destruct (rec_complete (handle_recover recover_err x s2)) as [[|z] s']; [discriminate|eauto].
-        - intros [(y & t & H)|(p & err & s & H & _ & z & s' & Hr)]; [discriminate|].
-          injection H as <- <- <-. rewrite Hr. eauto. }
-    destruct (tail s2) as [[|x] s3]; cbn.
+        - destruct (rec_complete (handle_recover recover_err z s2)) as [[|w] s'] eqn:Er; [discriminate|].
+          intros H. injection H as <-. do 4 eexists. split; [reflexivity|]. split; [exact Er|reflexivity].
+        - intros (err & s & y & s' & H & Hr & ->). injection H as <- <-. rewrite Hr. reflexivity. }
+    destruct (tail s2) as [[|z] s3]; cbn.
     - split.
-      + intros [y H]. right. do 3 eexists. split; [reflexivity|]. split; auto.
-        destruct (rec_complete s3) as [[|z] s']; [discriminate|eauto].
-      + intros [(y & t & H)|(p & err & s & H & _ & z & s' & Hr)]; [discriminate|].
-        injection H as <- <- <-. rewrite Hr. eauto.
+      + destruct (rec_complete s3) as [[|w] s'] eqn:Er; [discriminate|].
+        intros H. injection H as <-. do 4 eexists. split; [reflexivity|]. split; [exact Er|reflexivity].
+      + intros (err & s & y & s' & H & Hr & ->). injection H as <- <-. rewrite Hr. reflexivity.
     - split.
-      + intros [y H]. right. do 3 eexists. split; [reflexivity|]. split; auto.
-        destruct (rec_complete (handle_recover recover_err x s3)) as [[|z] s']; [discriminate|eauto].
-      + intros [(y & t & H)|(p & err & s & H & _ & z & s' & Hr)]; [discriminate|].
-        injection H as <- <- <-. rewrite Hr. eauto.
+      + destruct (rec_complete (handle_recover recover_err z s3)) as [[|w] s'] eqn:Er; [discriminate|].
+        intros H. injection H as <-. do 4 eexists. split; [reflexivity|]. split; [exact Er|reflexivity].
+      + intros (err & s & y & s' & H & Hr & ->). injection H as <- <-. rewrite Hr. reflexivity.
   Qed.
 
-  Lemma new_package_recorder_nil_pkg_escapes (gogen_new body tail rec_complete : comp) (s0 : st) x s1 :
+  (* a panic of gogen.NewPackage does not escape any more, Recorder or not: p stays nil, err is set *)
+  Lemma new_package_gogen_panic_returns has_rec (gogen_new body tail rec_complete : comp) (s0 : st) x s1 :
     gogen_new s0 = (Raised x, s1) ->
-    new_package true true true gogen_new body tail rec_complete s0 = Escaped None.
-  Proof. intros H. unfold C07.new_package, after_panic, finish. cbn [negb]. rewrite H. reflexivity. Qed.
+    new_package true has_rec true gogen_new body tail rec_complete s0 =
+      Returned false (errs s1 ++ [recover_err x]) (handle_recover recover_err x s1).
+  Proof.
+    intros H. unfold C07.new_package, after_panic, finish. cbn [negb]. rewrite H. destruct has_rec; reflexivity.
+  Qed.
+
+  (* a Recorder whose Complete does not raise changes nothing about escaping *)
+  Lemma new_package_recorder_no_escape (gogen_new body tail rec_complete : comp) (s0 : st) :
+    (forall s, fst (rec_complete s) = Done) ->
+    exists p err s, new_package true true true gogen_new body tail rec_complete s0 = Returned p err s.
+  Proof.
+    intros Hrc. unfold C07.new_package, after_panic, finish. cbn [negb].
+    assert (Hfin : forall err (s : st), exists p' err' s',
+               match rec_complete s with
+               | (Raised x, _) => @Escaped X E W (Some x)
+               | (Done, s') => Returned true err s'
+               end = Returned p' err' s').
+    { intros err s. specialize (Hrc s). destruct (rec_complete s) as [[|x] s']; [eauto|discriminate]. }
+    destruct (gogen_new s0) as [[|x] s1]; [|cbn; eauto].
+    destruct (body s1) as [[|x] s2]; [|cbn; apply Hfin].
+    destruct (tail s2) as [[|x] s3]; cbn; apply Hfin.
+  Qed.
 
   (* SetDisableRecover(true): the panic of the body escapes *)
   Lemma new_package_disabled_escapes has_rec (gogen_new body tail rec_complete : comp) (s0 : st) s1 s2 x :
